@@ -69,6 +69,11 @@ def layers(prop, tier):
                         jobs.append({'prop': prop, 'gen': {'gen': 'univ', 'K': Kp, 'order': 'rev' if nj == 3 else None},
                                      'meas': meas, 't': t, 'op': op, 'ae': ae, 'n_jobs': nj, 'pres': pres,
                                      'order': 'rev' if nj == 3 else None})
+    for meas in SET_MEASURES + ('OVERLAP',):       # tables that are row selections of frames already joined
+        for t in ((1, 2) if meas == 'OVERLAP' else (0.3, 0.6, 1.0)):
+            for nj in (1, 2):
+                jobs.append({'prop': prop, 'gen': {'gen': 'univ', 'K': 4}, 'meas': meas, 't': t, 'op': '>=', 'ae': True,
+                             'n_jobs': nj, 'pres': pres, 'derived': True})
     Ls.append(Layer('univ-parallel', 'checks.setjoin:w_tables', jobs,
                     'UNIV(%d) x measure x TH_att u k/10 x op x allow_empty x n_jobs 2,3 (owned scheduler, pickled '
                     'tasks, reversed task order for 3 jobs)' % Kp, min_nontrivial=1000, chunksize=16))
